@@ -137,6 +137,43 @@ def gen_cases(tier, seed):
                       'terms': terms, 'order': order, 'opts': kw,
                       'mseed': r.randrange(1 << 30)})
         k += 1
+    # (b2) term maps over orbits of three same-space target indices: cyclic
+    # products P_ij P_ik are not their own inverse
+    for _ in range(10 * mult):
+        sp = r.choice(['occ', 'virt'])
+        i_, j_, k_ = {'occ': ['i', 'j', 'k'], 'virt': ['a', 'b', 'c']}[sp]
+        l_ = {'occ': 'l', 'virt': 'd'}[sp]
+        shape = r.choice(['plain', 'contracted', 'two'])
+        if shape == 'plain':
+            base = [{'t': 'non', 'name': 'x', 'up': [i_, j_, k_]}]
+        elif shape == 'contracted':
+            base = [{'t': 'non', 'name': 'x', 'up': [i_, l_]},
+                    {'t': 'non', 'name': 'y', 'up': [l_, j_, k_]}]
+        else:
+            base = [{'t': 'non', 'name': 'x', 'up': [i_, j_]},
+                    {'t': 'non', 'name': 'y', 'up': [k_]}]
+        t0 = {'pref': r.choice(['1', '2', '-1/2']), 'objs': base}
+        orbit = r.choice(['cyclic', 'cyclic', 'full'])
+        cyc = {i_: j_, j_: k_, k_: i_}
+        terms = [t0, ir.rename_term(t0, cyc),
+                 ir.rename_term(ir.rename_term(t0, cyc), cyc)]
+        if orbit == 'full':
+            sg = r.choice(['1', '-1'])
+            extra = []
+            for x in terms:
+                y = ir.rename_term(x, {i_: j_, j_: i_})
+                y['pref'] = f"({x['pref']})*({sg})"
+                extra.append(y)
+            terms = terms + extra
+        if r.random() < 0.5:      # unequal weights: not every rotation is a
+            terms[1] = dict(terms[1], pref=f"({terms[1]['pref']})*(2)")  # symmetry
+        order = [i_, j_, k_]
+        r.shuffle(order)
+        cases.append({'id': f'C10-{tier[0]}{seed}-{k:05d}-termmap3',
+                      'kind': 'termmap', 'terms': terms, 'order': order,
+                      'opts': {'anti': r.random() < 0.5, 'split': None, 'bk': 0},
+                      'mseed': r.randrange(1 << 30)})
+        k += 1
     # (c) sorting / filtering
     for _ in range(110 * mult):
         spin = r.random() < 0.2
